@@ -24,7 +24,7 @@ import (
 var errLookedAtExceptions = map[string]string{
 	"E2 lexer.next:ReadRune1":               "end of input ends the last token: the lexer reports the token it has (true) and the next call reports the end",
 	"E2 auth.AuthPlain:AuthPlain1":          "a provider's refusal is superseded by the next provider's answer; the last one is what the final return reports (success comes only from a nil answer: C14.R3b)",
-	"E2 smtp.releaseLimits:Split1":          "cannot fail: the very same string was split successfully when the permit was taken (C03.R5 / C03.immut)",
+	"E2 smtp.releaseLimits:*":               "cannot fail: the very same string was split successfully when the permit was taken (C03.R5 / C03.immut)",
 	"E2 msgpipeline.srcBlockForAddr:Split1": "the empty reverse-path is not an address: the error is deliberately ignored for it (comment at the site) and the lookup goes on with empty parts",
 	"E1 pass_table.AuthPlain:Lookup1":       "the `ok` result is tested before the error: a failed table lookup is answered as 'unknown credentials'; authentication is refused on both paths, so C14 is not affected (the reply class for a broken table is outside the listed properties)",
 }
@@ -315,7 +315,14 @@ func errDiscipline(c *Check, rule string, fis []*FuncInfo) int {
 				n++
 			}
 			full := fi.Pkg.Types.Name() + "." + kk
-			if why, ok := errLookedAtExceptions[rl+" "+full]; ok {
+			why, ok := errLookedAtExceptions[rl+" "+full]
+			if !ok {
+				// an exception may name the function only (`E2 smtp.releaseLimits:*`): the step may be made through a helper
+				if i := strings.Index(full, ":"); i > 0 {
+					why, ok = errLookedAtExceptions[rl+" "+full[:i]+":*"]
+				}
+			}
+			if ok {
 				c.Except(rl + " " + full + ": " + why)
 				continue
 			}
@@ -356,6 +363,32 @@ func errDisciplineSeen(c *Check) {
 			fis = append(fis, fi)
 		}
 	})
+	// functions that call helpers the reference tree did not have: E1–E4 look at the bodies as written, and at the
+	// helpers themselves
+	if len(p.origBody) > 0 {
+		have := map[*types.Func]bool{}
+		for _, fi := range fis {
+			have[fi.Obj] = true
+		}
+		for i := 0; i < len(fis); i++ {
+			fi := fis[i]
+			for _, h := range p.newCallees[fi.Obj] {
+				if !have[h] {
+					if d := p.DeclOf(h); d != nil && d.Decl.Body != nil {
+						have[h] = true
+						fis = append(fis, d)
+					}
+				}
+			}
+		}
+		for i, fi := range fis {
+			if ob := p.origBody[fi.Obj]; ob != nil {
+				d := *fi.Decl
+				d.Body = ob
+				fis[i] = &FuncInfo{Obj: fi.Obj, Decl: &d, Pkg: fi.Pkg}
+			}
+		}
+	}
 	sort.Slice(fis, func(i, j int) bool { return fis[i].Name() < fis[j].Name() })
 	c.Rule("E2", "when a step failed (its error is non-nil) the error itself is used - returned, wrapped, logged, stored - or the function refuses, before the value is lost: an error test with the wrong polarity sends the failure down the success path", 0)
 	c.Rule("E3", "an error known to be nil is not handed on as the failure (the failure branch is not taken when the step succeeded)", 0)
